@@ -52,6 +52,10 @@ var HandCorpus = []string{
 	"twig", ".twig", "twig.twig", "a.twig", "js", "txt", ".js", ".", "..", "x.", ".txt.twig", "a/b.css", "html_attr", "t.url.twig",
 	// errors inside strings that hold interpolations
 	"{{ \"a#{b@c\" }}", "{{ \"a#{b @ c}d\" }}", "{{ \"a#{\"#{@\"}\" }}", "{{ \"a#{b}c#{d@\" }} tail {{ 1 }}", "{{ \"#{[1, @\" }}", "{{ a \"x#{b}y\" }}", "{% block \"n#{a}\" %}{% endblock %}",
+	// letters that are not ASCII wherever a name is expected
+	"{{ é }}{{ [é] }}{{ {é: 1} }}{{ f(é) }}{{ a.é }}{{ a|é }}{{ x is é }}{{ 中 }}{{ _é }}{{ aé }}{{ é.b }}{{ é() }}",
+	"{% macro m(é) %}{% endmacro %}", "{% macro é() %}{% endmacro %}", "{% filter é %}x{% endfilter %}", "{% filter up|é %}x{% endfilter %}", "{% set é = 1 %}", "{% for é in x %}{% endfor %}", "{% for k, é in x %}{% endfor %}",
+	"{% block é %}{% endblock %}", "{% from 'l' import é %}", "{% from 'l' import a as é %}", "{% use 'l' with é as b %}", "{% import 'l' as é %}", "{{ [1, é, 2] }}", "{% é %}", "{% if é %}{% endif %}", "{{ \"#{é}\" }}",
 	// text hostility
 	"plain text with } and %} and #} and { and % and # inside",
 	"multi\nline\r\ntext {{ a\n+\nb }} and {% if\n x \n%}y{% endif %}",
